@@ -403,6 +403,21 @@ def run(ctx, res):
                                 solver.entails([l], flit(eq(view_byte(inp, Lin.atom(a)), 0))) for l in delta)
                         if z:
                             zero_loops += 1
+        # the terminator is the *first* null: a loop that steps over a null byte and goes round again must not be the loop
+        # that parses items (otherwise bytes behind the terminator are tokenised as items of this chunk)
+        for rp in reps:
+            kinds = []
+            for delta, new in rp.backs:
+                nullstep = False
+                for a, nv in new.items():
+                    if nv is not None and nv == Lin.atom(a) + 1 and solver.entails(list(delta), flit(eq(view_byte(inp, Lin.atom(a)), 0))):
+                        nullstep = True
+                kinds.append(nullstep)
+            if any(kinds):
+                res.ob(all(kinds), "terminator", chunk_parse[0],
+                       "SdesChunk: the item list ends at the first null type byte — the loop that steps over null bytes does nothing else (no item is parsed behind the terminator)",
+                       detail=f"{sum(kinds)} null step(s), {len(kinds) - sum(kinds)} other back edge(s) in one loop")
+                n_chunk += 1
         if zero_loops == 0:
             # the same skip written with iterator adaptors: consumed = start + |take_while(bytes from start, b == 0)|
             for s, k, v in outs:
